@@ -3,6 +3,6 @@ CONSTANTS
   MaxTargets = 4
   MapOrder = "ordered"
   Memo = "none"
-  OtherTraits = {{}, {"Debug", "Clone"}, {"PartialOrd"}, {"PartialEq", "Eq", "PartialOrd", "Ord"}}
+  OtherTraits = {{}, {"Debug", "Clone"}, {"PartialOrd"}, {"PartialEq", "Eq", "PartialOrd", "Ord"}, {"Debug", "Clone", "Copy", "PartialEq", "Eq", "PartialOrd", "Ord", "Hash", "Default", "Deref", "DerefMut"}}
 INVARIANTS Deterministic IntoExactlyRequested
 CHECK_DEADLOCK FALSE
